@@ -70,6 +70,11 @@ impl WriteBatch {
 
 struct KeyValueStoreState {
     seq_no: u64,
+    // The sequence number of the last write that has completed.  Writes complete in sequence order
+    // (see the wait list), so every entry at or below this number is in a memtable or the tree.
+    // Reads snapshot at this number rather than seq_no, which also counts writes in flight whose
+    // entries are still being inserted one by one.
+    visible_seq_no: u64,
     imm: Option<Arc<MemTable>>,
     imm_trigger: u64,
     mem: Arc<MemTable>,
@@ -114,6 +119,7 @@ impl KeyValueStore {
         seq_no += 1;
         let state = Mutex::new(KeyValueStoreState {
             seq_no,
+            visible_seq_no: seq_no,
             imm,
             imm_trigger,
             mem,
@@ -229,10 +235,12 @@ impl KeyValueStore {
                 ))?;
                 state.mem_seq_no = state.seq_no;
                 state.seq_no += 1;
+                let rollover_seq_no = state.seq_no;
                 let mut wait_guard = self.wait_list.link(());
                 while !wait_guard.is_head() {
                     state = wait_guard.naked_wait(state);
                 }
+                state.visible_seq_no = std::cmp::max(state.visible_seq_no, rollover_seq_no);
                 drop(wait_guard);
                 self.wait_list.notify_head();
                 (imm, imm_log, imm_path, imm_trigger)
@@ -360,7 +368,7 @@ impl KeyValueStore {
     }
 
     pub fn write(&self, mut batch: WriteBatch) -> Result<(), SError> {
-        let (mut wait_guard, memtable, log) = {
+        let (mut wait_guard, memtable, log, seq_no) = {
             let mut state = self.state.lock().unwrap();
             let wait_guard = self.wait_list.link(());
             let seq_no = state.seq_no + 1;
@@ -375,6 +383,7 @@ impl KeyValueStore {
                 wait_guard,
                 Arc::clone(&state.mem),
                 Arc::clone(&state.mem_log),
+                seq_no,
             )
         };
         let mut log_batch = sst::log::WriteBatch::default();
@@ -393,6 +402,7 @@ impl KeyValueStore {
         while !wait_guard.is_head() {
             state = wait_guard.naked_wait(state);
         }
+        state.visible_seq_no = std::cmp::max(state.visible_seq_no, seq_no);
         drop(wait_guard);
         self.wait_list.notify_head();
         Ok(())
@@ -404,7 +414,7 @@ impl KeyValueStore {
             let mem = Arc::clone(&state.mem);
             let imm = state.imm.clone();
             let version = self.tree.take_snapshot();
-            (mem, imm, version, state.seq_no)
+            (mem, imm, version, state.visible_seq_no)
         };
         #[cfg(blue_verif)]
         crate::verif::yield_point(4);
@@ -433,7 +443,7 @@ impl KeyValueStore {
             let mem = Arc::clone(&state.mem);
             let imm = state.imm.clone();
             let version = self.tree.take_snapshot();
-            (mem, imm, version, state.seq_no)
+            (mem, imm, version, state.visible_seq_no)
         };
         #[cfg(blue_verif)]
         crate::verif::yield_point(5);
